@@ -1,5 +1,6 @@
 """C15 — strings: exact escapes, interpolation equals concatenation,
 Unicode-safe (the unit-discipline clause)."""
+import re
 import mir
 import prov
 import units
@@ -93,12 +94,60 @@ def rule_R15_3(ctx):
     return r
 
 
+LOOKBACK_RE = re.compile(r"core::str::<impl str>::(ends_with|strip_suffix|rfind|trim_end_matches)::<(char|&str|&&str)>$")
+
+
+def _is_backslash_const(op):
+    if mir.is_place_operand(op):
+        return False
+    c = mir.op_const(op)
+    v = c.get("v", c.get("pp"))
+    return v in ("\\", "'\\'", '"\\"', "\\\\", 92) or (isinstance(v, str) and v.strip("'\"") in ("\\", "\\\\"))
+
+
+def rule_R15_6(ctx):
+    """Whether a character of a literal is escaped is the state of the
+    scanner's machine (the transition taken on the `\\` before it).  It cannot
+    be recovered by looking one character back at the text accumulated so
+    far: after `\\\\` the last character is a backslash and the next one is
+    *not* escaped.  Any `ends_with('\\')`-style look-back in the lexer decides
+    escapedness by the wrong quantity (parity of a run, not its last item)."""
+    prog = ctx.prog
+    r = RuleResult("R15.6", "escapedness is carried by the scanner state, never "
+                   "recovered from the previous character: the lexer has no "
+                   "look-back test against `\\` on accumulated text",
+                   "`\"..\\\\\"` ends at its second quote; a look-back test "
+                   "takes that quote for an escaped one, so a nested literal "
+                   "ending in an escaped backslash swallows the rest of the slot")
+    n = 0
+    for f in prog.hand_fns():
+        if f.from_expansion or f.generated or not f.module.startswith("lexer"):
+            continue
+        for c in f.calls():
+            if c.is_ptr or not LOOKBACK_RE.search(c.res_full or c.res or ""):
+                continue
+            n += 1
+            if len(c.args) > 1 and _is_backslash_const(c.args[1]):
+                r.fail("%s | escape decided by looking back for a backslash via %s"
+                       % (f.path, (c.res or "").split("::")[-1].split("<")[0] or "ends_with"),
+                       "%s tests the accumulated text for a trailing `\\` "
+                       "to decide whether the current character is escaped; "
+                       "that is wrong whenever the backslash is itself escaped"
+                       % f.path, where=c.loc)
+            else:
+                r.ok()
+    r.inst("suffix look-back calls in the lexer: %d" % n)
+    if not n:
+        r.ok()
+    return r
+
+
 def run(ctx):
     import c09
     r5 = c09.rule_R09_6(ctx, "R15.5")
     for v in r5.violations:
         v.key = v.key.replace("R09.6", "R15.5", 1)
-    return [units.rule_units(ctx, "R15.1"), rule_R15_2(ctx), rule_R15_3(ctx), r5]
+    return [units.rule_units(ctx, "R15.1"), rule_R15_2(ctx), rule_R15_3(ctx), r5, rule_R15_6(ctx)]
 
 
 META = {
